@@ -90,13 +90,27 @@ def run(ctx):
         ctx.check(len(dn) == 1 and q.always_after(f, f.N(L)['cond'], dn + brk) if False else len(dn) == 1, R1, 'check_limits[%s]:evicts-each-iteration' % t, 'loop body does not evict', f.loc(L))
 
         # ---- R2: expired first
-        lru_pick = [i for i in q.field_calls(f, 'mem_cache::lru', ('rbegin', 'back', 'begin', 'front'))]
-        ctx.require(lru_pick, 'C08.R2: no LRU victim selection in check_limits')
         nowvars = set()
         for i in f.calls():
             if f.callee(i) == 'time':
                 for a in f.args(i):
                     nowvars |= set(r for r in f.subtree_refs(a) if r.startswith('v:'))
+        # the victim is chosen in check_limits itself or in a helper of the class that it calls (then `now` arrives as a parameter)
+        cl_fn = f
+        lru_pick = [i for i in q.field_calls(f, 'mem_cache::lru', ('rbegin', 'back', 'begin', 'front'))]
+        if not lru_pick:
+            for c_ in f.calls():
+                g_ = P.fns.get(f.N(c_).get('callee'))
+                if g_ is not None and g_.record == f.record and g_.entry is not None and q.field_calls(g_, 'mem_cache::lru', ('rbegin', 'back', 'begin', 'front')):
+                    hv = set()
+                    for prm, a_ in zip(g_.params, f.args(c_)):
+                        ar = set(r for r in f.subtree_refs(a_) if r.startswith('v:'))
+                        if ar and ar <= nowvars:
+                            hv.add(prm['ref'])
+                    f, nowvars = g_, hv
+                    lru_pick = [i for i in q.field_calls(f, 'mem_cache::lru', ('rbegin', 'back', 'begin', 'front'))]
+                    break
+        ctx.require(lru_pick, 'C08.R2: no LRU victim selection in check_limits')
 
         def not_expired(atom, pol):
             n = f.N(atom)
@@ -129,6 +143,7 @@ def run(ctx):
                 # the touched entry is first erased from its old position (fetch) or new (store)
         ctx.check(len(victim_end) == 1 and len(ins_end) == 1 and victim_end != ins_end, R2, 'check_limits[%s]:victim-end-opposite-to-insertion' % t,
                   'LRU victim end %s vs insertion end %s' % (sorted(victim_end), sorted(ins_end)), f.where)
+        f = cl_fn
     for f in insts(P, 'fetch'):
         t = tag(f)
         # the touch (erase from old position, push at the insertion end, update the back pointer) may sit in fetch
